@@ -11,6 +11,7 @@ CV16 == Corpus("CV16")
 IX16 == Corpus("IX16")
 BADIX16 == Corpus("BADIX16")
 NS16 == Corpus("NS16")
+NE16 == Corpus("NE16")
 NC == Len(CV16)
 Alpha == <<97, 233, 8364, 128512>>          \* 1-, 2-, 3- and 4-byte UTF-8 characters
 MaxStr == IF Deep THEN 4 ELSE 3
@@ -25,6 +26,8 @@ InFamily(x) ==
   \/ x \in [kind : {"sub"}, t : {<<>>}, s : Strs, i : 1..Len(IX16), l : 0..Len(IX16)]
   \* thorough: strings of length 5..8 over {a, emoji} (1- and 4-byte characters), every start / length of the index corpus
   \/ (Deep /\ \E m \in 5..8 : x \in [kind : {"sub"}, t : {<<>>}, s : [1..m -> {1, 4}], i : 1..Len(IX16), l : 0..Len(IX16)])
+  \* computed non-integral numbers: their string form is the shortest round-trip text (spec/NumText.tla)
+  \/ \E q \in 1..Len(NE16) : x \in [kind : {"catnum"}, t : {<<>>}, s : {<<>>}, i : {q}, l : {q, (q % Len(NE16)) + 1}]
   \/ x \in [kind : {"badix"}, t : {<<>>}, s : {<<1, 2>>}, i : 1..Len(BADIX16), l : 0..1]
   \/ x \in [kind : {"nonstr"}, t : {<<>>}, s : {<<>>}, i : 1..Len(NS16), l : {0}]
 
@@ -34,6 +37,7 @@ RuleOf(cc) ==
   CASE cc.kind \in {"cat", "cat3"} -> Op(K_cat, Vals(cc))
     [] cc.kind = "sub" -> IF cc.l = 0 THEN Op(K_substr, <<StrOf(cc), IX16[cc.i]>>)
                           ELSE Op(K_substr, <<StrOf(cc), IX16[cc.i], IX16[cc.l]>>)
+    [] cc.kind = "catnum" -> Op(K_cat, <<NE16[cc.i], Str(<<124>>), Arr(<<IntV(1)>>), NE16[cc.l]>>)
     [] cc.kind = "badix" -> IF cc.l = 0 THEN Op(K_substr, <<StrOf(cc), BADIX16[cc.i]>>)
                             ELSE Op(K_substr, <<StrOf(cc), IntV(0), BADIX16[cc.i]>>)
     [] cc.kind = "nonstr" -> Op(K_substr, <<NS16[cc.i], IntV(0)>>)
@@ -79,6 +83,14 @@ SplitLaw ==
         a == Eval(Op(K_substr, <<s, IntV(0), IX16[c.i]>>), Null)
         b == Outcome(c)
     IN a.ok /\ b.ok /\ a.v.v \o b.v.v = s.v
+\* the string form of a computed number reads back (StringToNumber) to the same double
+CatNumRoundTrips ==
+  phase = "done" /\ c.kind = "catnum" =>
+    LET a == Eval(NE16[c.i], Null)
+        o == Outcome(c)
+    IN a.ok => /\ o.ok
+               /\ LET txt == SubSeq(o.v.v, 1, Len(ToStringJS(a.v)))
+                  IN txt = ToStringJS(a.v) /\ FEq(StringToNumber(txt), F(a.v))
 ExportCases ==
   phase = "done" => Export(<<c.kind, c.t, c.s, c.i, c.l>>, RuleOf(c), Null, Outcome(c), Scope(c), NoFlags)
 =============================================================================
